@@ -122,3 +122,4 @@ Definition bits_is_nan (b : Z) : bool :=
   let m := if b <? 0x8000000000000000 then b else b - 0x8000000000000000 in 0x7FF0000000000000 <? m.
 Definition bits_pos_inf : Z := 0x7FF0000000000000.
 Definition bits_neg_inf : Z := 0xFFF0000000000000.
+Definition binary_normalize_z (i : Z) : f64 := of_mant_exp i 0 false.
